@@ -46,7 +46,8 @@ class C01(Prop):
     def cases(self, rng, tier):
         n = 200 if tier == "quick" else 4000
         for i in range(n):
-            g = ac.Gen(random.Random(rng.getrandbits(48)), full=True, depth=rng.choice([1, 2, 2, 3]))
+            g = ac.Gen(random.Random(rng.getrandbits(48)), full=True, depth=rng.choice([1, 2, 2, 3]),
+                       carried=rng.choice([0.0, 0.0, 0.0, 0.5]))
             yield {"kind": "dedup", "src": g.program(), "xseed": rng.getrandbits(32)}
 
     def impl(self, case):
@@ -62,8 +63,11 @@ class C01(Prop):
         prev_after = None
         chain_ok = True
         for (name, path, before, after, *_rest) in log:
-            _, _, cb = convert(before)
-            _, _, ca = convert(after)
+            try:
+                _, _, cb = convert(before)
+                _, _, ca = convert(after)
+            except ac.Unsupported as e:
+                return {"unmodelled": str(e), "n_steps": len(log)}  # outside the model's IR fragment: oracle only
             if prev_after is not None and prev_after != before:
                 chain_ok = False
             prev_after = after
@@ -153,6 +157,8 @@ class C01(Prop):
         if "steps" in impl_out:
             ks = sorted({s["rule"] for s in impl_out["steps"]})
             return "dedup:" + "+".join(ks)
+        if "unmodelled" in impl_out:
+            return "dedup:oracle-only(" + impl_out["unmodelled"] + ")"
         return super().stats_key(case, impl_out)
 
     def shrink(self, case):
